@@ -297,7 +297,11 @@ pub fn harness_a(a: &Args, shared: &SharedReport, th: bool, prop: &str) {
         if (ci as u64) % a.nshards != a.shard {
             continue;
         }
-        let max_exec = if th { 60_000 } else { 8_000 };
+        // the twin-violations races need three preemptions (both workers between their look-up and their insertion,
+        // then the first one again): that one model is explored one bound deeper, also in quick
+        // (the twin-violations race needs three preemptions - both workers between their look-up and their insertion,
+        // then the first one again: it is within the thorough tier's bound, not within quick's)
+        let max_exec = if th { 20_000 } else { 8_000 };
         let mut ex = Explorer::new(bound, max_exec);
         let mut outcomes: BTreeSet<String> = BTreeSet::new();
         let rvbase = replay_value(&case.model, &case.cfg, &["e2a"]);
@@ -483,7 +487,7 @@ pub fn harness_b(a: &Args, shared: &SharedReport, th: bool) {
         let nw = case.scripts.len();
         // 2 workers: all schedules (bound = "infinite"); 3 workers: preemption bound 3 (2 in quick)
         let bound = if nw == 2 { if th { 1000 } else { 4 } } else if nw == 3 { if th { 3 } else { 2 } } else if th { 2 } else { 1 };
-        let max_exec: u64 = std::env::var("VERIF_E2_MAXEXEC").ok().and_then(|v| v.parse().ok()).unwrap_or(if th { 150_000 } else if nw == 4 { 15_000 } else { 6_000 });
+        let max_exec: u64 = std::env::var("VERIF_E2_MAXEXEC").ok().and_then(|v| v.parse().ok()).unwrap_or(if th { 50_000 } else if nw == 4 { 15_000 } else { 6_000 });
         if let Ok(f) = std::env::var("VERIF_E2_ONLY") {
             if !case.name.contains(&f) {
                 continue;
@@ -564,7 +568,7 @@ pub fn run_c05(a: &Args, shared: &SharedReport) {
         let mut r = shared.lock().unwrap();
         r.rule = "every schedule of the real worker threads at their hook points (lock, condition wait, notify_one choice, yield points before shared-map accesses) up to the preemption bound, for each (model, strategy, threads, block size, stop reason) case and each job-market case; each schedule is one execution of the real code; non-trivial = all (>= 2 threads)".into();
         r.bounds = json!({"preemption_bound": if th {3} else {2}, "checker_cases": "9 zoo graphs x {bfs,dfs,on_demand} x threads x block, + finish_when / target / model panic / dfs+symmetry / simulation cases", "threads": if th {vec![2,3]} else {vec![2]},
-            "market_cases": "8 job trees (chains, binary trees, two roots, fans of 4-7) x {normal, early return, panic} x workers; 2 workers: preemption bound 4 (thorough: unbounded), 3 workers: bound 2 (3), 4 workers on the fans: bound 1 (2)", "execution_cap_per_case": if th {60000} else {8000}, "horizon_steps": 5000});
+            "market_cases": "8 job trees (chains, binary trees, two roots, fans of 4-7) x {normal, early return, panic} x workers; 2 workers: preemption bound 4 (thorough: unbounded), 3 workers: bound 2 (3), 4 workers on the fans: bound 1 (2)", "execution_cap_per_case": if th {"20000 (checker cases), 50000 (market cases)"} else {"8000"}, "horizon_steps": 5000});
     }
     harness_b(a, shared, th);
     harness_a(a, shared, th, "C05");
